@@ -65,7 +65,15 @@ class C02(IRProp):
             got = obs.get(name)
             if got != want:
                 bad.append(dict(what=f"label {name}: expected {want}, found {got}", finding=self.classify(case, name, want, got)))
-        whole = {i for (i, t, off, ln, patch, to_proxy) in case.mods if t == "del" and off == 0 and ln == case.size(i)}
+        whole = set()
+        for i in range(len(case.blocks)):
+            dels = [(off, ln) for (j, t, off, ln, patch, to_proxy) in case.mods if j == i and t == "del"]
+            others = [1 for (j, t, off, ln, patch, to_proxy) in case.mods if j == i and t != "del"]
+            covered = set()
+            for off, ln in dels:
+                covered |= set(range(off, off + ln))
+            if dels and not others and covered >= set(range(case.size(i))):
+                whole.add(i)          # every byte of the block is deleted (by one deletion or by several)
 
         def slides_onto_proxied(i):
             # block i is deleted whole (no proxy asked) and so is everything up to a block that is deleted to a proxy: the labels of
